@@ -1370,6 +1370,20 @@ class NoPanic:
             if B.upper(n, b) <= B.lower(d, b) and B.lower(d, b) >= 1:
                 return self.rec(fn, b, "from_ratio", coarse(P, n), "proved", "numerator <= denominator")
             return self.rec(fn, b, "from_ratio", coarse(P, n), "open", "Bernoulli::from_ratio panics when numerator > denominator")
+        if name == "gen_range" and "rand" in sp and len(args) >= 2:
+            # rand 0.7/0.8: gen_range(low, high) / gen_range(low..high) panic on an empty range
+            lo_, hi_ = (args[1], args[2]) if len(args) >= 3 else (None, None)
+            if lo_ is None and isinstance(args[1], tuple) and args[1][0] == "agg" and str(args[1][1]).endswith("Range::Range") and len(args[1][2]) == 2:
+                lo_, hi_ = args[1][2]
+            if lo_ is not None and B.le(lo_, hi_, -1, b):
+                return self.rec(fn, b, "gen_range", coarse(P, hi_), "proved", "low < high")
+            return self.rec(fn, b, "gen_range", ",".join(describe(P, a) for a in args[1:]), "open", "Rng::gen_range panics on an empty range (low >= high)")
+        if f.get("trait") == "core::ops::index::Index" and ("HashMap" in (f.get("self_ty") or sp) or "BTreeMap" in (f.get("self_ty") or sp)):
+            key_ = args[1] if len(args) > 1 else None
+            rels_ = flow.rel_facts_at(B.IN, b)
+            if any(r[0] == "True" and is_call(r[1]) and callee_name(r[1][1]) == "contains_key" and r[1][2] and r[1][2][0] == args[0] and r[1][2][1] == key_ for r in rels_):
+                return self.rec(fn, b, "map-index", coarse(P, key_), "proved", "dominated by contains_key")
+            return self.rec(fn, b, "map-index", describe(P, key_) if key_ else "?", "open", "map[key] panics when the key is absent")
         if sp.endswith("seq::index::sample") and len(args) == 3:
             if B.le(args[2], args[1], 0, b):
                 return self.rec(fn, b, "index-sample", coarse(P, args[2]), "proved", "amount <= length")
